@@ -452,6 +452,14 @@ def _g2(ctx: Context) -> None:
         for c in ctx.calls(n):
             if isinstance(c.func, ast.Attribute) and c.func.attr == "append" and c.args:
                 apps.append((n, strip_sites(T.of(cfg, n, c.args[0]))))
+    # the same list written as a comprehension (returned, or kept in a local first): its element, in loop-variable terms
+    from ..engine.terms import comp_as_loop
+
+    for n in cfg.nodes:
+        if n.kind == "return" and n.exprs and n.exprs[0] is not None:
+            cl = comp_as_loop(strip_sites(T.of(cfg, n, n.exprs[0])))
+            if cl is not None and not cl[1]:
+                apps.append((n, cl[0]))
     ok = bool(apps)
     for n, t in apps:
         good = False
